@@ -32,6 +32,8 @@ type callHandler struct {
 	Hsend  int    `json:"hsend"`
 	Hdrain bool   `json:"hdrain"`
 	Hret   string `json:"hret"`
+	// Hflood: keep sending until a Send fails (the client went away)
+	Hflood bool `json:"hflood"`
 }
 
 type callScenario struct {
@@ -224,6 +226,17 @@ func callSetup() {
 		st := v.(*callState)
 		st.entered.Store(true)
 		defer close(st.exited)
+		if st.sc.H.Hflood {
+			chunk := make([]byte, 64<<10)
+			for i := 0; i < 16384; i++ { // (1 GiB: far beyond anything a closing client drains)
+				chunk[0] = byte(i%250 + 1)
+				if err := ss.Send(&BV{Value: chunk}); err != nil {
+					st.ctxErr = ctx.Err() != nil
+					return err
+				}
+			}
+			return nil
+		}
 		for i := 0; i < st.sc.H.Hsend; i++ {
 			if err := ss.Send(&BV{Value: []byte{byte(i + 1)}}); err != nil {
 				st.ctxErr = ctx.Err() != nil
@@ -378,7 +391,7 @@ func runCall(raw json.RawMessage, seed int64, rec *Rec) {
 		hsend = 0 // a client-streaming handler's single response exists only if it returns successfully
 	}
 	rec.Add(E("reset", "tid", s.Tid, "sc", map[string]any{"msend": s.Msend, "mrecv": s.Mrecv, "hrecv": s.H.Hrecv,
-		"hsend": hsend, "hdrain": s.H.Hdrain, "hret": s.H.Hret, "watch": true},
+		"hsend": hsend, "hdrain": s.H.Hdrain, "hret": s.H.Hret, "watch": true, "hflood": s.H.Hflood},
 		"scn", map[string]any{"proto": s.Proto, "prog": s.Prog, "h": s.H, "kind": s.Kind, "http": s.HTTP, "big": s.Big}))
 
 	var closed atomic.Int64
